@@ -28,6 +28,8 @@ extra_notes = {
  'C06-j': 'Caught by C07 and C08 as they stood; C06 got fails=on-child-death.',
  'C20-j': 'Caught by C06 (owns=true, jobs-released) as it stood; C20 got an owner with a child.',
  'C14-j': 'The change of C11-i at another place; rejected-in-flight is now part of C14 as well.',
+ 'C06-k': 'Caught by C19 as it stood (linearizable-set-semantics: Unsubscribe of a type the actor does not hold); MISSED by C06 at first, whose owners all held two types: every second owner now holds exactly one type and leaves two it never held, and C06 catches it (subscriptions-released).',
+ 'C13-k': 'MISSED by C13 at first: Handshake.Wait was not among its entry points (DESIGN said it was). Check handshake/declared-length-x-supplied-bytes added: every declared length around the buffer limits x supplied bytes around the declared amount; catches it (decode-no-panic at declared 4093..4096).',
  'C15-i': 'The change of C14-h again (frame header read with a single Read); caught by C11 and C14 as they stood, C15 got the short-reads pre-phase.',
 }
 for d in sorted(glob.glob(root + '/C*/')):
